@@ -278,6 +278,67 @@ type c17Op struct {
 	White   bool   `json:"white"`
 	// Due: for "periodic", the locations whose entries are due for an update
 	Due []string `json:"due,omitempty"`
+	// Raw: for "add", the request body as sent (another JSON spelling of the
+	// same request: Loc and White are what encoding/json makes of it); for
+	// "probe", a body the handler named in Old must refuse without any effect
+	// (probes are not steps of the model's history)
+	Raw string `json:"raw,omitempty"`
+}
+
+// c17RawAdd spells the add request {url: loc, whitelist: white} in JSON forms
+// that encoding/json reads as the same request: key case, duplicate keys (the
+// last one counts), a second value after the first (not read), escapes, null
+// for the flag, leading blanks.
+func c17RawAdd(variant int, loc string, white bool) string {
+	l, _ := json.Marshal(loc)
+	L, w := string(l), strconv.FormatBool(white)
+	switch variant % 8 {
+	case 0:
+		return `{"URL":` + L + `,"NAME":"x","WhiteList":` + w + `}`
+	case 1:
+		return `{"url":"http://lists.example/a.txt","name":"x","url":` + L + `,"whitelist":` + w + `}`
+	case 2:
+		return `{"name":"x","url":` + L + `,"whitelist":` + w + `} {"url":"http://lists.example/a.txt","whitelist":false}`
+	case 3:
+		// every '/' escaped
+		return `{"name":"x","url":` + strings.ReplaceAll(L, "/", "\\/") + `,"whitelist":` + w + `}`
+	case 4:
+		if !white {
+			return `{"name":"x","url":` + L + `,"whitelist":null}`
+		}
+		return `{"whitelist":true,"url":` + L + `}`
+	case 5:
+		return "\n\t {\"name\" : \"x\" ,\n \"url\" : " + L + " , \"whitelist\" : " + w + " }\n"
+	case 6:
+		return `{"name":"x","url":` + L + `,"whitelist":` + w + `,"enabled":false,"id":1,"data":{"url":"http://lists.example/a.txt"}}`
+	default:
+		// every byte below 0x80 of the URL as a \u escape
+		var b strings.Builder
+		for _, r := range loc {
+			if r < 0x80 {
+				fmt.Fprintf(&b, "\\u%04x", r)
+			} else {
+				b.WriteRune(r)
+			}
+		}
+		return `{"name":"x","url":"` + b.String() + `","whitelist":` + w + `}`
+	}
+}
+
+// c17Probes are bodies the add / set_url handlers must refuse without effect,
+// whatever location they carry.
+func c17Probes(loc, old string) (ops []c17Op) {
+	l, _ := json.Marshal(loc)
+	o, _ := json.Marshal(old)
+	L, O := string(l), string(o)
+	for _, b := range []string{`{"name":"x","url":` + L + `,"whitelist":"true"}`, `[` + L + `]`, L, `{"url":5}`, `{"name":"x","url":` + L, ``, `{"url":[` + L + `]}`, `{"name":{},"url":` + L + `}`} {
+		ops = append(ops, c17Op{Kind: "probe", Old: "add", Loc: loc, Raw: b})
+	}
+	for _, b := range []string{`{"url":` + O + `,"whitelist":false}`, `{"url":` + O + `,"data":null}`, `{"url":` + O + `,"data":{"url":` + L + `,"enabled":"yes"}}`,
+		`{"url":` + O + `,"data":[` + L + `]}`, `{"url":` + O + `,"whitelist":0,"data":{"url":` + L + `,"enabled":true}}`, `{"url":` + O + `,"data":{"url":` + L + `,"enabled":true}`} {
+		ops = append(ops, c17Op{Kind: "probe", Old: "set", Loc: loc, Raw: b})
+	}
+	return ops
 }
 
 type c17Obs struct {
@@ -298,6 +359,9 @@ func c17Do(d *DNSFilter, op c17Op) (code, updated int) {
 		vc := c17ValidateCode(d, op.Loc)
 		exists := d.filterExists(op.Loc)
 		body, _ := json.Marshal(filterAddJSON{Name: "x", URL: op.Loc, Whitelist: op.White})
+		if op.Raw != "" {
+			body = []byte(op.Raw)
+		}
 		w := httptest.NewRecorder()
 		r := httptest.NewRequest(http.MethodPost, "/control/filtering/add_url", bytes.NewReader(body))
 		d.handleFilteringAddURL(w, r)
@@ -336,6 +400,17 @@ func c17Do(d *DNSFilter, op c17Op) (code, updated int) {
 		default:
 			return 6, 0
 		}
+	case "probe":
+		w := httptest.NewRecorder()
+		if op.Old == "add" {
+			d.handleFilteringAddURL(w, httptest.NewRequest(http.MethodPost, "/control/filtering/add_url", strings.NewReader(op.Raw)))
+		} else {
+			d.handleFilteringSetURL(w, httptest.NewRequest(http.MethodPost, "/control/filtering/set_url", strings.NewReader(op.Raw)))
+		}
+		if w.Code == http.StatusOK {
+			return 92, 0
+		}
+		return 0, 0
 	case "periodic":
 		// What the timer of updatesLoop does, without the goroutine and the
 		// waiting: the entries named in op.Due get a LastUpdated long ago, the
@@ -660,17 +735,19 @@ func c17GoodLoc(r *vfRand, tr *c17Tree) (loc, class string) {
 }
 
 func (tr *c17Tree) OpsCoq(ops []c17Op) string {
-	items := make([]string, len(ops))
-	for i, o := range ops {
+	items := make([]string, 0, len(ops))
+	for _, o := range ops {
 		switch o.Kind {
+		case "probe":
+			// not a step of the model's history
 		case "add":
-			items[i] = vfApp("op_add", tr.P(o.Loc), vfBool(o.White))
+			items = append(items, vfApp("op_add", tr.P(o.Loc), vfBool(o.White)))
 		case "set":
-			items[i] = vfApp("op_set", tr.P(o.Old), tr.P(o.Loc), vfBool(o.Enabled), vfBool(o.White))
+			items = append(items, vfApp("op_set", tr.P(o.Old), tr.P(o.Loc), vfBool(o.Enabled), vfBool(o.White)))
 		case "periodic":
-			items[i] = vfApp("op_periodic", tr.PList(o.Due))
+			items = append(items, vfApp("op_periodic", tr.PList(o.Due)))
 		default:
-			items[i] = vfApp("op_refresh", vfBool(o.White))
+			items = append(items, vfApp("op_refresh", vfBool(o.White)))
 		}
 	}
 	return vfList("eop", items)
@@ -752,6 +829,23 @@ func c17HistoryX(t *testing.T, out *vfOut, tr *c17Tree, dataDir string, extra []
 		locs = append(locs, p.URL)
 	}
 	for _, op := range ops {
+		if op.Kind == "probe" {
+			// a body the handler must refuse: nothing may change
+			b0, a0 := snapshot()
+			code, _ := c17Do(d, op)
+			b1, a1 := snapshot()
+			classes = append(classes, "probe-"+op.Old)
+			if code != 0 {
+				fail(fmt.Sprintf("%s handler accepted the body %q", op.Old, op.Raw))
+			}
+			if fmt.Sprint(b0, a0) != fmt.Sprint(b1, a1) {
+				fail(fmt.Sprintf("%s handler refused the body %q but the lists changed", op.Old, op.Raw))
+			}
+			continue
+		}
+		if op.Raw != "" {
+			classes = append(classes, "add-raw-json")
+		}
 		locs = append(locs, op.Loc)
 		code, upd := c17Do(d, op)
 		b, a := snapshot()
@@ -861,7 +955,11 @@ func c17GenHistory(r *vfRand, tr *c17Tree, n int) (block, allow []c17Plant, ops 
 			if r.Chance(1, 3) {
 				loc, cl = c17GoodLoc(r, tr)
 			}
-			ops = append(ops, c17Op{Kind: "add", Loc: loc, White: r.Chance(1, 4)})
+			op := c17Op{Kind: "add", Loc: loc, White: r.Chance(1, 4)}
+			if r.Chance(1, 4) {
+				op.Raw = c17RawAdd(r.Intn(8), op.Loc, op.White)
+			}
+			ops = append(ops, op)
 			known = append(known, loc)
 			classes = append(classes, cl)
 		case 3, 4:
@@ -1188,6 +1286,10 @@ func TestVerifC17(t *testing.T) {
 		c17History(t, out, tr, dataDir, safe, nil, nil, []c17Op{{Kind: "add", Loc: h}}, []string{"pre-add-hostile"})
 		c17History(t, out, tr, dataDir, safe, []c17Plant{{URL: R + "/safe/a.txt", Enabled: true}}, nil,
 			[]c17Op{{Kind: "refresh"}, {Kind: "set", Old: R + "/safe/a.txt", Loc: h, Enabled: true}, {Kind: "refresh"}}, []string{"pre-set-hostile"})
+		// the URL edited while the list is disabled (nothing is downloaded, so
+		// only the validation stands in the way), then enabled
+		c17History(t, out, tr, dataDir, safe, []c17Plant{{URL: "http://lists.example/a.txt", Enabled: true}}, nil,
+			[]c17Op{{Kind: "set", Old: "http://lists.example/a.txt", Loc: h, Enabled: false}, {Kind: "refresh"}, {Kind: "set", Old: h, Loc: h, Enabled: true}, {Kind: "refresh"}}, []string{"pre-set-hostile-disabled"})
 		c17History(t, out, tr, dataDir, safe, []c17Plant{{URL: h, Enabled: true}}, []c17Plant{{URL: h + "/.", Enabled: true, Loaded: 77}},
 			[]c17Op{{Kind: "refresh"}, {Kind: "refresh", White: true}}, []string{"pre-refresh-planted-hostile"})
 		c17History(t, out, tr, dataDir, nil, []c17Plant{{URL: h, Enabled: true}}, nil,
@@ -1264,6 +1366,25 @@ func TestVerifC17(t *testing.T) {
 					{Kind: "periodic", Due: []string{loc, loc + "/", "http://lists.example/a.txt"}}},
 				[]string{"pre-unclean-pattern"})
 		}
+	}
+
+	// The JSON side of add / set_url: other spellings of the same request
+	// (key case, duplicate keys, a second value, escapes) for hostile and benign
+	// locations, in both arrays; and bodies that must be refused without effect.
+	for v := 0; v < 8; v++ {
+		var ops []c17Op
+		for i, loc := range []string{R + "/secret/s.txt", "file://" + R + "/secret/s.txt", R + "/safe/a.txt", R + "/safe/../safe/b.lst ", R + "/safe/a.txt\x00", "", "http://lists.example/a.txt", R + "/safe/\xc3\xbc.txt"} {
+			white := (i+v)%3 == 0
+			ops = append(ops, c17Op{Kind: "add", Loc: loc, White: white, Raw: c17RawAdd(v, loc, white)})
+		}
+		ops = append(ops, c17Op{Kind: "refresh"}, c17Op{Kind: "refresh", White: true})
+		c17History(t, out, tr, dataDir, safe, nil, nil, ops, []string{"pre-add-raw-json"})
+	}
+	for _, loc := range []string{R + "/secret/s.txt", R + "/safe/a.txt", "http://lists.example/a.txt"} {
+		ops := []c17Op{{Kind: "refresh"}}
+		ops = append(ops, c17Probes(loc, R+"/safe/b.lst")...)
+		ops = append(ops, c17Op{Kind: "refresh"}, c17Op{Kind: "refresh", White: true})
+		c17History(t, out, tr, dataDir, safe, []c17Plant{{URL: R + "/safe/b.lst", Enabled: true}}, []c17Plant{{URL: "http://lists.example/a.txt", Enabled: true}}, ops, []string{"pre-json-probes"})
 	}
 
 	// The glob space: a file named exactly like a configured pattern that does
